@@ -168,13 +168,26 @@ func (p *pathRun) bigExp(fr *frame, recv value, x, y, m bigval) value {
 		base = inv
 		ey = c.Neg(yt)
 	}
-	// small concrete exponents are unrolled
-	if ey.IsConst() && ey.Val.BitLen() <= 6 {
-		acc := c.IntC64(1)
-		for i := int64(0); i < ey.Val.Int64(); i++ {
-			acc = c.Mul(acc, base)
+	// small concrete exponents (and ite trees over them, e.g. a challenge bit) are unrolled
+	var small func(e *smt.Term) *smt.Term
+	small = func(e *smt.Term) *smt.Term {
+		if e.IsConst() && e.Val.Sign() >= 0 && e.Val.BitLen() <= 6 {
+			acc := c.IntC64(1)
+			for i := int64(0); i < e.Val.Int64(); i++ {
+				acc = c.Mul(acc, base)
+			}
+			return c.Mod(acc, am)
 		}
-		return p.setBig(fr, recv, p.mkBig(c.Mod(acc, am)))
+		if e.Op == "ite" {
+			a, b := small(e.Args[1]), small(e.Args[2])
+			if a != nil && b != nil {
+				return c.Ite(e.Args[0], a, b)
+			}
+		}
+		return nil
+	}
+	if r := small(ey); r != nil {
+		return p.setBig(fr, recv, p.mkBig(r))
 	}
 	r := p.powTerm(base, ey, am)
 	return p.setBig(fr, recv, p.mkBig(r))
